@@ -7,7 +7,7 @@ import re
 
 from sa.cfg import cfg_of
 from sa.facts import result_sites
-from sa.guards import GuardView, names_in
+from sa.guards import GuardView, atom_of, names_in
 from sa.index import own_nodes
 from sa.report import Ctx
 
@@ -173,6 +173,96 @@ def adapter_table(ctx: Ctx, a):
                 continue
             table.setdefault((_classes(at), _form(s.arg("solution")) == "none"), set()).add((st, _form(s.arg("solution")), _objective_kind(s.arg("objective"))))
     return table
+
+
+REFERENCE_SCOPE = {
+    # file -> prefixes of the qualified names that belong to a Python reference routine of an accelerated function
+    "solvor/bellman_ford.py": ("bellman_ford", "_reconstruct_indexed"),
+    "solvor/floyd_warshall.py": ("floyd_warshall",),
+    "solvor/dijkstra.py": ("dijkstra",),
+    "solvor/bfs.py": ("bfs", "dfs"),
+    "solvor/mst.py": ("kruskal",),
+    "solvor/utils/data_structures.py": ("UnionFind",),
+    "solvor/pagerank.py": ("pagerank",),
+    "solvor/scc.py": ("strongly_connected_components", "topological_sort"),
+    "solvor/utils/helpers.py": ("reconstruct_path",),
+}
+
+
+# (adapter, status or "solution") -> atoms that must guard that Result: the outcome tables of O3 compare *sets* of
+# outcomes per query class and cannot see a flag read with the wrong polarity
+POLARITY = {
+    "floyd_warshall": {"UNBOUNDED": {"T:result['has_negative_cycle']"}, "OPTIMAL": {"F:result['has_negative_cycle']"}},
+    "bellman_ford": {"UNBOUNDED": {"T:result['has_negative_cycle']"}, "INFEASIBLE": {"F:result['has_negative_cycle']", "target is not None", "result['distances'][target] == float('inf')"}, "OPTIMAL": {"F:result['has_negative_cycle']"}},
+    "kruskal": {"INFEASIBLE": {"F:result['is_connected']", "F:allow_forest"}, "FEASIBLE": {"F:result['is_connected']", "T:allow_forest"}, "OPTIMAL": {"T:result['is_connected']"}},
+    "dijkstra_edges": {"INFEASIBLE": {"target is not None", "F:result['target_reached']"}, "path": {"target is not None", "T:result['target_reached']"}},
+    "bfs_edges": {"INFEASIBLE": {"target is not None", "F:result['target_reached']"}, "path": {"target is not None", "T:result['target_reached']"}},
+    "dfs_edges": {"INFEASIBLE": {"target is not None", "F:result['target_reached']"}, "path": {"target is not None", "T:result['target_reached']"}},
+    "topological_sort_edges": {"INFEASIBLE": {"F:result['is_acyclic']"}, "OPTIMAL": {"T:result['is_acyclic']"}},
+}
+
+
+def adapter_polarity(ctx: Ctx, adapters):
+    n = 0
+    for name, want in sorted(POLARITY.items()):
+        a = adapters.get(name)
+        if a is None:
+            continue
+        acfg = cfg_of(a.node)
+        agv = GuardView(acfg)
+        seen = set()
+        for s_ in result_sites(a):
+            at = {atom_of(x) if not x.startswith(("T:", "F:", "OR(", "NAND(", "IN-LOOP", "AFTER-LOOP")) else x for x in agv.guard_atoms(s_.node, stable_only=False)}
+            keys = [st for st in s_.statuses if st in want]
+            if "path" in want and "path" in ast.unparse(s_.arg("solution")) and "INFEASIBLE" not in s_.statuses:
+                keys = ["path"]
+            for k_ in keys:
+                need = {atom_of(x) if not x.startswith(("T:", "F:")) else x for x in want[k_]}
+                if k_ == "OPTIMAL" and "target is not None" in at and name == "bellman_ford":
+                    need = need | {atom_of("result['distances'][target] != float('inf')")}
+                n += 1
+                seen.add(k_)
+                ctx.ob("C12-O3", "R1 STATUS-GUARD", a, f"pair:{name} the {k_} answer is given under the kernel flag's own polarity", need <= at, f"needs {sorted(need - at)}; guards {sorted(x for x in at if 'result' in x or 'target' in x or 'allow' in x)}: a flag read the wrong way round turns 'reached' into INFEASIBLE and the other way round, while the set of possible outcomes stays the same", node=s_.call)
+        missing = set(want) - seen
+        ctx.ob("C12-O3", "R3 STATUS-USE", a, f"pair:{name} has a publication site for each of {sorted(want)}", not missing, f"missing {sorted(missing)}", node=a.node)
+    ctx.floor("adapter answers checked for flag polarity", n, 16)
+    fw = adapters.get("floyd_warshall")
+    if fw is not None:
+        from .sat_common import _need
+
+        _need(ctx, "C12-O4", "R18 SIBLING-AGREEMENT (policy)", fw, "undirected mode hands the kernel both orientations of every edge", ["if not directed:", "expanded.append((u, v, w))\n        expanded.append((v, u, w))", "edges = expanded"])
+    bfa = adapters.get("bellman_ford")
+    if bfa is not None:
+        from .sat_common import _need
+
+        _need(ctx, "C12-O3", "R5 PAIRING", bfa, "the path is rebuilt from the kernel's predecessor array, target first, and reversed", ["current = target\n    while current != -1:\n        path.append(current)\n        current = result['predecessors'][current]\n    path.reverse()"])
+
+
+def reference_routines(ctx: Ctx):
+    """O10: the Rust kernels were written to mirror the Python routines, and the properties that own those routines
+    (C11 shortest paths, C13 kruskal/union-find, C14 SCC/topological sort, C15 PageRank) state their obligations step
+    by step.  A Python routine that leaves its reference form answers differently from the kernel, so what those
+    analyses decide about the nine accelerated functions' routines counts here as well (their other functions - prim,
+    condense, A*, k-core ... - do not)."""
+    import importlib
+
+    from sa.report import run_module
+
+    n = 0
+    for sib in ("c11", "c13", "c14", "c15"):
+        mod = importlib.import_module(f"checks.{sib}")
+        sub = Ctx(sib.upper(), ctx.repo, "quick")
+        run_module(mod, sub)
+        for o in sub.obs:
+            if "-G" in o.oid or o.severity != "violation":
+                continue
+            pref = REFERENCE_SCOPE.get(o.rel)
+            if not pref or not o.func.startswith(pref):
+                continue
+            n += 1
+            ob_ = ctx.ob("C12-O10", o.rule, None, f"[{o.oid}] {o.construct}", o.ok, (o.detail + " - the kernel mirrors the reference form of this routine, so the Python back-end now answers differently from the Rust one") if not o.ok else "", rel=o.rel, fname=o.func)
+            ob_.lineno = o.lineno
+    ctx.floor("obligations on the Python reference routines (from C11, C13, C14, C15)", n, 60)
 
 
 def run(ctx: Ctx):
@@ -480,6 +570,8 @@ def run(ctx: Ctx):
     from .c11 import check_floyd_edge_ingest
 
     ctx.step(check_floyd_edge_ingest, "C12-O4")
+    ctx.step(adapter_polarity, adapters)
+    ctx.step(reference_routines)
     generic_sweeps(ctx)
 
 
